@@ -132,9 +132,9 @@ structure C04.AgreeExcept (D : Nat → String → Prop) (s t : St) : Prop where
   root : s.root = t.root
   size : s.frames.size = t.frames.size
   pos : 0 < t.frames.size
-  /-- frame by frame: same parent, depth, function, and the same bindings outside `D` -/
+  /-- frame by frame: same parent, depth, function, local-function flag, and the same bindings outside `D` -/
   frames : ∀ i ft, t.frames[i]? = some ft → ∃ fs, s.frames[i]? = some fs ∧ fs.outer = ft.outer ∧
-    fs.depth = ft.depth ∧ fs.cacheKey = ft.cacheKey ∧ fs.function = ft.function ∧
+    fs.depth = ft.depth ∧ fs.cacheKey = ft.cacheKey ∧ fs.function = ft.function ∧ fs.localFunc = ft.localFunc ∧
     ∀ n, ¬ D i n → lookupStore fs.store n = lookupStore ft.store n
   /-- a binding of `D` is one the purity test does not trust: in `t` it is bound, to a value that is neither a
   function nor a reference, under a name that is not all-caps (since repo fix 103fa2c function values of NON-root frames
@@ -161,10 +161,10 @@ theorem C04.agree_stRq {D : Nat → String → Prop} {s t : St} (h : C04.AgreeEx
   refine ⟨h.cfg, h.off, h.extNames, h.depth, h.steps, h.outs, by rw [sh_id hd]; exact h.cur,
     by rw [sh_id hd]; exact h.root, h.size, Nat.le_refl _, h.pos, ?_, h.dec, hlt, rfl, Or.inl trivial⟩
   intro i ft hi
-  obtain ⟨fs, hfs, h1, h2, h3, h4, h5⟩ := h.frames i ft hi
+  obtain ⟨fs, hfs, h1, h2, h3, h4, h6, h5⟩ := h.frames i ft hi
   have hilt := lt_of_frame hi
   refine ⟨fs, by rw [sh_id hd]; exact hfs, ?_⟩
-  refine ⟨?_, h2, h3, ?_, ?_, ?_, ?_, ?_, ?_⟩
+  refine ⟨?_, h2, h3, ?_, ?_, ?_, ?_, ?_, ?_, h6⟩
   · rw [h1]; cases ft.outer with
     | none => rfl
     | some o => simp only [Option.map]; rw [sh_id hd]
@@ -225,7 +225,7 @@ theorem det_agree : C04.AgreeExcept detD (detState 7) (detState 5) := by
   refine ⟨rfl, rfl, rfl, rfl, rfl, rfl, rfl, rfl, rfl, by decide, ?_, ?_, ?_, ?_⟩
   · intro i ft h
     obtain ⟨rfl, rfl⟩ := hframe i ft h
-    refine ⟨{ store := [("fib", .func fibVal), ("x", .int 7)] }, rfl, rfl, rfl, rfl, rfl, ?_⟩
+    refine ⟨{ store := [("fib", .func fibVal), ("x", .int 7)] }, rfl, rfl, rfl, rfl, rfl, rfl, ?_⟩
     intro n hn
     have hx : ¬ n = "x" := fun hh => hn ⟨rfl, hh⟩
     have hx' : ("x" == n) = false := by simpa using fun hh : "x" = n => hx hh.symm
